@@ -371,3 +371,35 @@ def check_numbering(cg, fine, all_atom, what=''):
             gnames = [g.nodes[x].get('atomname') for x in g.nodes]
             expect(len(set(gnames)) == len(gnames), 'numbering:atomname-not-unique',
                    lambda: '%satom names of coarse node %r: %r' % (what, k, gnames))
+
+
+# ----------------------------------------------------------------------------------------
+# isomorphism that also works for very long chains (VF2 in networkx recurses once per node)
+# ----------------------------------------------------------------------------------------
+def _walk(g, start):
+    seq, prev, cur = [], None, start
+    while True:
+        nxt = [x for x in g[cur] if x != prev]
+        seq.append((cur, nxt[0] if nxt else None))
+        if not nxt:
+            return seq
+        prev, cur = cur, nxt[0]
+
+
+def iso(g, h, node_match, edge_match):
+    if len(g) != len(h) or g.number_of_edges() != h.number_of_edges():
+        return False
+    if len(g) <= 300:
+        return nx.is_isomorphic(g, h, node_match=node_match, edge_match=edge_match)
+    dg, dh = sorted(d for _, d in g.degree), sorted(d for _, d in h.degree)
+    if dg != dh:
+        return False
+    if dg[-1] > 2 or dg[0] != 1 or not nx.is_connected(g) or not nx.is_connected(h):
+        raise RuntimeError('iso(): large graphs are only supported when they are simple chains')
+    sg = _walk(g, [n for n, d in g.degree if d == 1][0])
+    for end in [n for n, d in h.degree if d == 1]:
+        sh = _walk(h, end)
+        if all(node_match(g.nodes[a], h.nodes[b]) and (a2 is None) == (b2 is None) and
+               (a2 is None or edge_match(g.edges[a, a2], h.edges[b, b2])) for (a, a2), (b, b2) in zip(sg, sh)):
+            return True
+    return False
